@@ -138,10 +138,183 @@ Proof.
   - apply IH. simpl. exact Hr.
 Qed.
 
+(* ---- episodes: the model's order states pass [ord_hist_ok] ------------------------------------------- *)
+
+Lemma ht_ts : forall (s : orders) c, ht (s c) = ts s c.
+Proof. intros. unfold ht. rewrite ts_oreg. reflexivity. Qed.
+
+Lemma ge_opt_refl : forall h, ge_opt h h = true.
+Proof. intros [t|]; simpl; [apply Z.leb_refl|reflexivity]. Qed.
+
+Lemma ge_opt_some : forall T h, ge_opt (Some T) h = true -> exists t, h = Some t /\ T <= t.
+Proof. intros T [t|] H; simpl in H; [|discriminate]. exists t. split; [reflexivity|lia]. Qed.
+
+(** an input that is no new open request keeps every floor, as long as the id stays tracked *)
+Lemma floor_kept : forall s o c lo,
+  (forall r, o = RecOpen r -> k_cid (o_key r) <> c) ->
+  step s o c <> None ->
+  ge_opt lo (ts s c) = true -> ge_opt lo (ts (step s o) c) = true.
+Proof.
+  intros s o c [T|] Hno Hn H; [|reflexivity].
+  destruct (ge_opt_some _ _ H) as [t [Ht Hle]].
+  destruct (details_persist s o c t Ht Hn Hno) as [t' [Ht' Hle']].
+  rewrite Ht'. simpl. apply Z.leb_le. lia.
+Qed.
+
+Lemma open_report_not_recopen : forall o d c,
+  open_report o = Some d -> forall r, o = RecOpen r -> k_cid (o_key r) <> c.
+Proof. intros o d c H r ->. discriminate. Qed.
+
+Lemma open_report_tracked : forall s o d, open_report o = Some d -> step s o (cid_of o) <> None.
+Proof.
+  intros s o [T m] H Hn. destruct (open_report_floor s o T m H) as [t' [Ht' _]].
+  unfold ts in Ht'. rewrite Hn in Ht'. discriminate.
+Qed.
+
+(** an open report with something left raises the floor to its own timestamp *)
+Lemma floor_raised : forall s o T m lo,
+  open_report o = Some (T, m) ->
+  ge_opt lo (ts s (cid_of o)) = true ->
+  ge_opt (max_opt lo [T]) (ts (step s o) (cid_of o)) = true.
+Proof.
+  intros s o T m lo H Hlo.
+  destruct (open_report_floor s o T m H) as [t' [Ht' Hle]].
+  pose proof (floor_kept s o (cid_of o) lo (open_report_not_recopen o _ _ H)
+                (open_report_tracked s o _ H) Hlo) as Hk.
+  rewrite Ht' in *. destruct lo as [T0|]; simpl in *; apply Z.leb_le; apply Z.leb_le in Hk || idtac; lia.
+Qed.
+
+Lemma max_opt_cons : forall a t l, max_opt a (t :: l) = max_opt (max_opt a [t]) l.
+Proof. reflexivity. Qed.
+
+(** a run of open reports for one id *)
+Lemma floors_open_reports : forall ops s c need hi,
+  Forall (fun o => cid_of o = c /\ open_report o <> None) ops ->
+  ge_opt need (ts s c) = true -> ge_opt hi (ts s c) = true ->
+  ge_opt (max_opt need (map fst (open_deliveries ops))) (ts (run ops s) c) = true /\
+  ge_opt hi (ts (run ops s) c) = true.
+Proof.
+  induction ops as [|o ops IH]; intros s c need hi Hall Hn Hh; [split; assumption|].
+  inversion Hall as [|? ? [Hc Ho] Hrest]; subst.
+  destruct (open_report o) as [[T m]|] eqn:E; [|congruence].
+  assert (open_deliveries (o :: ops) = (T, m) :: open_deliveries ops) as ->.
+  { unfold open_deliveries. simpl. rewrite E. reflexivity. }
+  change (map fst ((T, m) :: open_deliveries ops)) with (T :: map fst (open_deliveries ops)).
+  change (run (o :: ops) s) with (run ops (step s o)).
+  rewrite max_opt_cons. apply IH; auto.
+  - apply (floor_raised s o T m need E Hn).
+  - apply floor_kept; auto.
+    + apply (open_report_not_recopen o _ _ E).
+    + apply (open_report_tracked s o _ E).
+Qed.
+
+Lemma ord_inputs_cid : forall i c xs o, In o (ord_inputs i c xs) -> cid_of o = c.
+Proof.
+  intros i c xs o H. unfold ord_inputs in H. apply filter_In in H. destruct H as [_ H].
+  apply Z.eqb_eq. exact H.
+Qed.
+
+Lemma single_projection : forall x e i c,
+  e_ord (estep9 e x) i c = run (ord_inputs i c [x]) (e_ord e i) c.
+Proof. intros. exact (order_projection [x] e i c). Qed.
+
+(** one event, one (instrument, id): the oracle's check passes on the model's new state and the
+    floors it carries forward hold there *)
+Lemma ord_track_model : forall i c st x e,
+  ge_opt (fst st) (ts (e_ord e i) c) = true ->
+  ge_opt (snd st) (ts (e_ord e i) c) = true ->
+  let r := ord_track i c st x (e_ord (estep9 e x) i c) in
+  fst r = true /\
+  ge_opt (fst (snd r)) (ts (e_ord (estep9 e x) i) c) = true /\
+  ge_opt (snd (snd r)) (ts (e_ord (estep9 e x) i) c) = true.
+Proof.
+  intros i c [need hi] x e Hn Hh. simpl in Hn, Hh. unfold ord_track.
+  destruct (e_ord (estep9 e x) i c) as [y|] eqn:Ey.
+  2:{ simpl. repeat split; reflexivity. }
+  assert (ht (Some y) = ts (e_ord (estep9 e x) i) c) as Hht.
+  { rewrite <- Ey. apply ht_ts. }
+  destruct (resets i c x) eqn:Er.
+  - simpl. rewrite Hht. repeat split; auto. apply ge_opt_refl.
+  - simpl fst. simpl snd.
+    assert (ge_opt (max_opt need (map fst (open_deliveries (ord_inputs i c [x]))))
+                   (ts (e_ord (estep9 e x) i) c) = true /\
+            ge_opt hi (ts (e_ord (estep9 e x) i) c) = true) as [H1 H2].
+    { unfold ts. rewrite single_projection. fold (ts (run (ord_inputs i c [x]) (e_ord e i)) c).
+      assert (run (ord_inputs i c [x]) (e_ord e i) c <> None) as Htr.
+      { rewrite <- single_projection. congruence. }
+      destruct x as [m|bals insts|o|j t k].
+      - split; assumption.
+      - (* full account snapshot: all reports for the id are open reports *)
+        simpl in Er. apply negb_false_iff in Er.
+        apply floors_open_reports; auto.
+        apply Forall_forall. intros o Ho. split; [eapply ord_inputs_cid; eauto|].
+        pose proof (open_only_spec _ Er) as Hall. rewrite Forall_forall in Hall. apply Hall. exact Ho.
+      - (* one order input *)
+        unfold ord_inputs, inst_inputs in *. simpl in *.
+        destruct (Z.eqb_spec (inst_of o) i) as [Ei|Ei]; simpl in *; [|split; assumption].
+        destruct (Z.eqb_spec (cid_of o) c) as [Ec|Ec]; simpl in *; [|split; assumption].
+        assert (forall r, o = RecOpen r -> k_cid (o_key r) <> c) as Hno.
+        { intros r ->. unfold inst_of, cid_of in *. simpl in *.
+          rewrite <- Ei, <- Ec, !Z.eqb_refl in Er. discriminate. }
+        destruct (open_report o) as [[T m0]|] eqn:Eo.
+        + subst c. split.
+          * exact (floor_raised (e_ord e i) o T m0 need Eo Hn).
+          * apply floor_kept; auto.
+        + split; apply floor_kept; auto.
+      - split; assumption. }
+    rewrite Hht, H1, H2. simpl. repeat split; auto.
+    destruct (ts (e_ord (estep9 e x) i) c) as [t|] eqn:Et; [|exact H2].
+    simpl. apply Z.leb_refl.
+Qed.
+
+Lemma insts_eq_nth : forall U e l i0 k,
+  insts_eq U e i0 l = true -> (k < length l)%nat ->
+  oview_eq U (e_ord e (i0 + Z.of_nat k)) (io_orders (nth k l iobs0)) = true.
+Proof.
+  intros U e. induction l as [|x l IH]; intros i0 k H Hk; simpl in *; [lia|].
+  apply andb_prop in H. destruct H as [H H3]. apply andb_prop in H. destruct H as [_ H2].
+  destruct k as [|k].
+  - simpl. rewrite Z.add_0_r. exact H2.
+  - replace (i0 + Z.of_nat (S k)) with ((i0 + 1) + Z.of_nat k) by lia. apply IH; [exact H3|lia].
+Qed.
+
+Lemma corr_run_ord_hist : forall U nb ni k c xs e st os,
+  (k < ni)%nat -> In c U ->
+  ge_opt (fst st) (ts (e_ord e (Z.of_nat k)) c) = true ->
+  ge_opt (snd st) (ts (e_ord e (Z.of_nat k)) c) = true ->
+  corr_run U nb ni e xs os = true ->
+  ord_hist_ok (Z.of_nat k) c st xs os = true.
+Proof.
+  intros U nb ni k c. induction xs as [|x xs IH]; intros e st os Hk Hc Hn Hh H;
+    destruct os as [|o os]; simpl in *; try discriminate; auto.
+  apply andb_prop in H. destruct H as [H Hr]. apply andb_prop in H. destruct H as [Hlen Hobs].
+  apply andb_prop in Hlen. destruct Hlen as [_ Hni]. apply Nat.eqb_eq in Hni.
+  unfold obs_eq in Hobs. apply andb_prop in Hobs. destruct Hobs as [_ Hi].
+  assert (obs_order (Z.of_nat k) c o = e_ord (estep9 e x) (Z.of_nat k) c) as Hcur.
+  { unfold obs_order. rewrite Nat2Z.id.
+    pose proof (insts_eq_nth U (estep9 e x) (ob_inst o) 0 k Hi ltac:(lia)) as Hv.
+    rewrite Z.add_0_l in Hv. apply (oview_lookup U _ _ c Hv Hc). }
+  rewrite Hcur.
+  destruct (ord_track_model (Z.of_nat k) c st x e Hn Hh) as [H1 [H2 H3]].
+  rewrite H1. simpl. apply (IH (estep9 e x)); auto.
+Qed.
+
+Lemma episodes_ok_model : forall xs os,
+  corr_b (C9 xs os) = true -> episodes_ok (cids_of xs) xs os = true.
+Proof.
+  intros xs os H. simpl in H. unfold episodes_ok. destruct os as [|o os]; [reflexivity|].
+  apply forallb_forall. intros k Hk. apply in_seq in Hk.
+  apply forallb_forall. intros c Hc.
+  apply (corr_run_ord_hist (cids_of xs) (length (ob_bal o)) (length (ob_inst o)) k c xs engine0);
+    auto; try lia.
+Qed.
+
 Theorem oracle_no_stricter_than_model : forall c, corr_b c = true -> prop_b c = true.
 Proof.
-  intros [xs os|] H; simpl in *; [|discriminate].
-  destruct os as [|o os].
-  - destruct xs; [reflexivity|discriminate].
-  - apply (corr_run_prop_run _ (length (ob_bal o)) (length (ob_inst o)) xs [] (o :: os)). exact H.
+  intros [xs os|] H; [|discriminate].
+  unfold prop_b. apply andb_true_intro. split.
+  - simpl in H. destruct os as [|o os].
+    + destruct xs; [reflexivity|discriminate].
+    + apply (corr_run_prop_run _ (length (ob_bal o)) (length (ob_inst o)) xs [] (o :: os)). exact H.
+  - apply episodes_ok_model. exact H.
 Qed.
